@@ -648,6 +648,13 @@ func cmp(op token.Token, a, b *Term) *Term {
 			return Bool(op == token.EQL)
 		}
 	}
+	// canonical form: a > b is b < a, a >= b is b <= a
+	if op == token.GTR {
+		return cmp(token.LSS, b, a)
+	}
+	if op == token.GEQ {
+		return cmp(token.LEQ, b, a)
+	}
 	// canonical form: express != as not(==) so that both edges of a branch share one atom
 	if op == token.NEQ {
 		return Not(&Term{Op: "bin", Name: "==", Args: []*Term{a, b}, T: bt})
@@ -967,6 +974,12 @@ func condsContradict(cs []*Term) bool {
 				collect(a)
 			}
 		default:
+			if t.Op == "ite" && isBoolTerm(t.Args[1]) && isBoolTerm(t.Args[2]) {
+				for _, a := range t.Args {
+					collect(a)
+				}
+				return
+			}
 			if _, ok := t.BoolVal(); ok {
 				return
 			}
@@ -1013,6 +1026,13 @@ func condsContradict(cs []*Term) bool {
 			return false
 		case "not":
 			return !eval(t.Args[0], asg)
+		case "ite":
+			if isBoolTerm(t.Args[1]) && isBoolTerm(t.Args[2]) {
+				if eval(t.Args[0], asg) {
+					return eval(t.Args[1], asg)
+				}
+				return eval(t.Args[2], asg)
+			}
 		}
 		if b, ok := t.BoolVal(); ok {
 			return b
@@ -1166,4 +1186,24 @@ func FoldCall(t *Term) *Term {
 		return Const(constant.ToFloat(q), t.T)
 	}
 	return t
+}
+
+func isBoolTerm(t *Term) bool {
+	switch t.Op {
+	case "and", "or", "not":
+		return true
+	case "bin":
+		return cmpOps[tokByName[t.Name]]
+	case "const":
+		_, ok := t.BoolVal()
+		return ok
+	case "ite":
+		return isBoolTerm(t.Args[1]) && isBoolTerm(t.Args[2])
+	}
+	if t.T != nil {
+		if b, ok := t.T.Underlying().(*types.Basic); ok && b.Info()&types.IsBoolean != 0 {
+			return true
+		}
+	}
+	return false
 }
